@@ -169,7 +169,7 @@ class Real:
 
     # -- operations
     def op_NewStruct(self):
-        cls = self.PDFFitStructure if len(self.objs) % 3 == 2 else self.Structure
+        cls = self.PDFFitStructure if len(self.objs) % 2 == 1 else self.Structure
         return cls()
 
     def op_NewList(self, tags):
